@@ -472,8 +472,8 @@ def _duration_events(dt, n):
         a, b = ka * dt + rel[ra], kb * dt + rel[rb]
         if b < a or (dt < 4 and (ra in ("m1", "p1") or rb in ("m1", "p1"))):
             continue
-        eng = 1 + (i % 2)
-        pri.append({"kind": "task_priority", "engine": eng, "target": 10000 + eng, "a": a, "b": b, "ra": ra, "rb": rb,
+        eng = i % 2  # engine ids 0 and 1: id 0 is legal (and falsy - a truthiness test on it must not drop the filter)
+        pri.append({"kind": "task_priority", "engine": eng, "target": 10001 + eng, "a": a, "b": b, "ra": ra, "rb": rb,
                     "priority": 3.0 + i})
         sen = 20001 + ((i + 1) % 2)
         bias.append({"kind": "sensor_time_bias", "sensor": sen, "a": a, "b": b, "ra": ra, "rb": rb, "bias": 0.5})
@@ -503,7 +503,7 @@ def _run_duration(res, item):
     t4 = scen.target_eci(10000, *scen.overhead_orbit(st, 13.0, 26.0, 19800.0, 110.0))
     s1 = scen.ground_sensor(20001, 10.0, 20.0, fov={"fov_shape": "conic", "cone_angle": 20.0})
     s2 = scen.ground_sensor(20002, 12.0, 27.0, fov={"fov_shape": "conic", "cone_angle": 20.0})
-    cfg = scen.config(st, n + 1, [scen.engine(1, [t1, t3], [s1]), scen.engine(2, [t4, t2], [s2])], physics=dt,
+    cfg = scen.config(st, n + 1, [scen.engine(0, [t1, t3], [s1]), scen.engine(1, [t4, t2], [s2])], physics=dt,
                       events=ev_cfgs, seed=7)
     del _LOG[:]
     sc = scen.build(cfg)
@@ -586,15 +586,15 @@ def _run_duration(res, item):
     # priority effect on the reward matrix: reward row == priority product x unprioritised reward of the same metrics
     for k in range(1, steps_run + 1):
         lo, hi = (k - 1) * dt, k * dt
-        for eid in (1, 2):
+        for eid in (0, 1):
             base = per_step[k - 1]["base"][eid]
             factor = 1.0
             for e in pri:
                 if e["engine"] == eid and e["a"] <= hi and e["b"] > lo:
                     factor *= e["priority"]
             expected = base.copy()
-            # engine 1 rows: [10001, 10003] -> prioritised row 0; engine 2 rows: [10000, 10002] -> prioritised row 1
-            expected[0 if eid == 1 else 1, :] *= factor
+            # engine 0 rows: [10001, 10003] -> prioritised row 0; engine 1 rows: [10000, 10002] -> prioritised row 1
+            expected[0 if eid == 0 else 1, :] *= factor
             got = per_step[k - 1]["reward"][eid]
             visible = bool(per_step[k - 1]["vis"][eid].any()) and bool(np.any(base != 0))
             ok = np.allclose(got, expected, rtol=1e-12, atol=0)
